@@ -18,6 +18,30 @@ CLAIMED = {
               "cookie sensitivity (2^-32) is statistical and not proved: proved is identity with SipHash-2-4 over an "
               "injective encoding of exactly the five inputs."),
         technique="Coq theorem over executable model + extracted-model/implementation correspondence + finite flag table by vm_compute"),
+    "C07": dict(
+        text=("Coq theorems over the model of reply(): (state level, unconditional) for every table and frame, a PSH|ACK "
+              "segment is answered iff its flow's cookie is in the table or it acknowledges cookie+1, with exactly one "
+              "reply carrying ACK (PSH iff application data), seq = peer ack, ack = peer seq + payload length mod 2^32; "
+              "FIN|ACK gets FIN|ACK acking seq+1; bare ACK / RST get nothing. (history level) the same with acceptance "
+              "decided by the reference connection model keyed by the 4-tuple, for every history, assuming no cookie "
+              "collision among the flows involved. Tied to /repo by differential execution of scripted multi-flow "
+              "interleavings; the extracted specification monitors the implementation's replies."),
+        design="DESIGN.md section 5, C07",
+        note=("Trusted: Coq kernel/vm_compute, extraction + OCaml driver, harness; correspondence is testing; pnet accessor "
+              "semantics modelled. The history-level theorem carries the hypothesis no_collision (C08 known finding: the "
+              "table is keyed by the 32-bit cookie). env_ok (non-empty reply constants, table sanity) is re-proved per run."),
+        technique="Coq theorems (state-level + refinement to 4-tuple reference model) + model/implementation correspondence"),
+    "C09": dict(
+        text=("Coq theorems by induction over arbitrary frame histories: the key set of the connection table equals the set "
+              "of cookies of flows that sent a PSH|ACK acknowledging cookie+1, keys are duplicate-free, the table size "
+              "equals the specification's count, frames that do not validate a flow never add a key and frames that are "
+              "not accepted data segments leave the table syntactically unchanged. Tied to /repo by comparing the "
+              "implementation's table size (hook verif_len) after every frame of mixed histories with the model and "
+              "with the specification's expected size."),
+        design="DESIGN.md section 5, C09",
+        note=("Trusted: Coq kernel, extraction + OCaml driver, harness, hook tcb::verif_len; correspondence is testing. "
+              "'Distinct flows' are counted as distinct cookies (they differ from 4-tuples only on a SipHash collision, C08)."),
+        technique="Coq invariant by induction over histories + table-size correspondence through a hook"),
 }
 
 ALL = ["C%02d" % i for i in range(1, 21)]
